@@ -120,8 +120,22 @@ func init() {
 						continue
 					}
 					lc, ok := leaf.(*ssa.Call)
-					if !ok || (c != nil && c != lc) {
+					if !ok {
 						isCall = false
+						continue
+					}
+					// several increments (one before a retry loop, one inside it) are fine when they are
+					// the same operation on the same counter
+					if c != nil && c != lc {
+						same := atomicOp(&lc.Call) == atomicOp(&c.Call) && len(lc.Call.Args) == 2 && len(c.Call.Args) == 2 && lc.Call.Args[0] == c.Call.Args[0]
+						if same {
+							da, oka := constInt(lc.Call.Args[1])
+							db, okb := constInt(c.Call.Args[1])
+							same = oka && okb && da == db
+						}
+						if !same {
+							isCall = false
+						}
 						continue
 					}
 					c = lc
@@ -204,7 +218,7 @@ func init() {
 						v := st.Val
 						okk := false
 						why := ""
-						if c, isC := v.(*ssa.Call); isC && c.Call.StaticCallee() == gen {
+						if c, isC := v.(*ssa.Call); isC && resolveCallee(&c.Call) == gen {
 							okk, why = true, "fresh id from the generator"
 						}
 						if _, name, _, isF := loadedField(v); isF && name == "IRequestId" {
